@@ -130,5 +130,8 @@ META["C15"] = dict(META["C15"])
 META["C15"]["engine"] = "A-virtual-clock + V-value-pure + T-text-kv"
 META["C15"]["technique"] = "differential property testing (rapid) against a sequential value interpreter, pure and through generated lock histories; model-based property testing of the Redis-style text commands against a reference key-value store"
 META["C15"]["level_text"] = META["C15"]["level_text"].replace(" The Redis-style text commands of the statement are not yet covered by this check.", "") + " (c) generated Redis-style command sequences over a small key set through the real text front end, every reply and a full read-back compared with a reference key-value store (engine T)."
+META["C03"] = dict(META["C03"])
+META["C03"]["engine"] = "A-virtual-clock + B-controlled-schedules + D-disconnect (text replies)"
+META["C03"]["technique"] = META["C03"]["technique"] + "; plus stateful property-based testing of text connections through the real Server.handle (one reply per command, its own reply, notices never delivered as replies)"
 _NOT_BUILT = "check not built yet in this session (planned in DESIGN.md); not claimed rather than faked"
 NOT_APPLICABLE = {f"C{i:02d}": _NOT_BUILT for i in range(1, 21)}
